@@ -78,7 +78,9 @@ func mutateBytes(r *gen.Rand, s string) (string, string) {
 	if len(b) == 0 {
 		return "\x00\xff{", "random-bytes"
 	}
-	switch r.Intn(7) {
+	switch r.Intn(8) {
+	case 7:
+		return r.Pick("", "\n", " ", "---\n", "null\n", "[]\n", "\"x\"\n", "---\n---\n"), "emptied"
 	case 0:
 		k := r.Intn(len(b))
 		return string(b[:k]), "torn-write"
